@@ -34,7 +34,9 @@ PRINTABLE = bytes(range(32, 127))
 def gen_value(rng, ty, int8=False):
     if ty == "String":
         r = rng.random()
-        n = 0 if r < 0.15 else rng.randint(1, 9) if r < 0.9 else rng.randint(10, 40)
+        # lengths 1..9 hit every `len mod 4`; the tail crosses the parser's placeholder width (lib.STRING = |S128)
+        n = (0 if r < 0.15 else rng.randint(1, 9) if r < 0.85 else rng.randint(10, 40) if r < 0.95
+             else rng.choice([127, 128, 129, 130, 131, 200, 260]))
         return bytes(rng.choice(PRINTABLE) for _ in range(n))
     if ty == "Float32":
         return rng.choice(F32_EDGE) if rng.random() < 0.5 else rng.getrandbits(32)
